@@ -230,6 +230,17 @@ def shell_name(enc: dict) -> str:
     return basename(enc) + enc.get('suffix', 'Shell')
 
 
+def shell_class(enc: dict, header_text: Optional[str] = None) -> str:
+    """Name of the shell struct.  It is the output base name where that is a C++ identifier;
+    for a model file name such as my-model.dzn the library has to derive one, and which one is
+    its business - it is read from the emitted header then."""
+    name = shell_name(enc)
+    if re.fullmatch(r'[A-Za-z_][A-Za-z0-9_]*', name) or header_text is None:
+        return name
+    found = re.search(r'^\s*struct\s+([A-Za-z_][A-Za-z0-9_]*)\s*$', header_text, re.M)
+    return found.group(1) if found else name
+
+
 def file_prefix(enc: dict) -> str:
     prefix = enc.get('prefix')
     return '_'.join(list(prefix or []) + ['Dzn'])
